@@ -738,6 +738,7 @@ fn run_case<D: Be>(seed: u64, case_ix: u64, tier: &str, out: &mut Out, st: &mut 
     let mut pend_s: HashMap<u64, Vec<Eff>> = HashMap::new();
     let mut dual_dirty = false; // a dual-kind column has been written: its reads are not judged
     let mut seen_prefix_related = false;
+    let mut dual_reported = false;
 
     let fail = |st: &mut Stats, sig: &str, desc: String, i: usize| {
         if st.failures.len() < 20 {
@@ -869,6 +870,11 @@ fn run_case<D: Be>(seed: u64, case_ix: u64, tier: &str, out: &mut Out, st: &mut 
                 match r {
                     Ok(got) => {
                         let want = wide.get(k).cloned();
+                        if !judged && got != want && !dual_reported {
+                            dual_reported = true;
+                            st.dual_leaks += 1;
+                            fail(st, "dual-kind-column-interference", format!("type used as wide AND key-of-set column: {} returned {:?}, reference {:?}", &op.line[..op.line.len().min(160)], got.as_deref().map(fmt), want.as_deref().map(fmt)), i);
+                        }
                         if judged && got != want {
                             let sig = match (&got, &want) {
                                 (None, Some(_)) => "get-lost",
@@ -919,7 +925,14 @@ fn run_case<D: Be>(seed: u64, case_ix: u64, tier: &str, out: &mut Out, st: &mut 
                             fail(st, sig, format!("{} returned [{}], reference [{}]", &op.line[..op.line.len().min(160)],
                                 got.iter().map(|e| fmt(e)).collect::<Vec<_>>().join(" "), want.iter().map(|e| fmt(e)).collect::<Vec<_>>().join(" ")), i);
                         }
-                        if !judged && sorted != want { st.dual_leaks += 1; }
+                        if !judged && sorted != want {
+                            st.dual_leaks += 1;
+                            if !dual_reported {
+                                dual_reported = true;
+                                fail(st, "dual-kind-column-interference", format!("type used as wide AND key-of-set column: {} returned [{}], reference [{}]", &op.line[..op.line.len().min(160)],
+                                    got.iter().map(|e| fmt(e)).collect::<Vec<_>>().join(" "), want.iter().map(|e| fmt(e)).collect::<Vec<_>>().join(" ")), i);
+                            }
+                        }
                         if !got.is_empty() {
                             st.bump("scan_nonempty");
                             st.nontrivial.insert(fnv(format!("{}{}", op.line, got.iter().map(|e| fmt(e)).collect::<Vec<_>>().join(" ")).as_bytes()));
@@ -931,7 +944,14 @@ fn run_case<D: Be>(seed: u64, case_ix: u64, tier: &str, out: &mut Out, st: &mut 
                     }
                     Err(_) => {
                         if D::TAG == "f" && k.1.len() > 60_000 { st.bump("fjall_oversize_key_panics"); }
-                        else if judged { fail(st, "scan-panic", format!("{} panicked", &op.line[..op.line.len().min(160)]), i); } else { st.dual_leaks += 1; }
+                        else if judged { fail(st, "scan-panic", format!("{} panicked", &op.line[..op.line.len().min(160)]), i); }
+                        else {
+                            st.dual_leaks += 1;
+                            if !dual_reported {
+                                dual_reported = true;
+                                fail(st, "dual-kind-column-interference", format!("type used as wide AND key-of-set column: {} panicked", &op.line[..op.line.len().min(160)]), i);
+                            }
+                        }
                         "panic".into()
                     }
                 }
@@ -1048,7 +1068,7 @@ fn main() {
             }
         }
     }
-    if only_case.is_none() {
+    if only_case.is_none() && !a.rest.iter().any(|x| x == "--no-probe") {
         let nb = if tier == "quick" { 1500 } else { 20000 };
         if catch_unwind(AssertUnwindSafe(|| atomic_probe::<RocksDB>(seed, nb, &mut st))).is_err() {
             st.failures.push(("r:atomic-probe-panic".into(), "atomicity probe panicked".into(), format!("kv seed={seed} atomic-probe backend=r")));
